@@ -15,7 +15,7 @@ open TraitsVerif TraitsVerif.Model.Obs TraitsVerif.Proto
 
 def names : List String :=
   ["value", "mate", "child", "kids", "byname", "group", "trait_added", "trait_modified",
-   "extra", "xchild", "items", "nosuch", "ichild", "nchild", "tkids"]
+   "extra", "xchild", "items", "nosuch", "ichild", "nchild", "tkids", "l2", "l2_items"]
 
 def nameOf (n : Name) : String := names.getD n s!"n{n}"
 def name? (s : String) : Option Name := names.findIdx? (· == s)
@@ -96,9 +96,14 @@ def parseOp (s : String) : Option Op :=
     pure (.mut [.read (← nat? o) (← name? f) c] [c])
   | ["addt", o, f, tg] => do
     let f ← name? f
+    -- `l2` (15) is added as a List trait (its companion `l2_items` event trait is not listed by
+    -- traits() and, since fix f0764c2, not hooked by the trait_added maintainers of filtered observers)
     -- tag codes: 0 no metadata, 1 True, 2 False, 3 0, 4 "", 5 "x", 6 None; matched iff not None
     let tg ← nat? tg
-    pure (.mut [.addTrait (← nat? o) f (tg != 0 && tg != 6) (if f == nExtra then .val (.int 0) else .val .none)] [])
+    let o ← nat? o
+    pure (.mut ((if f == 15 then [Mutation.announce o 16 15] else []) ++
+      [.addTrait o f (tg != 0 && tg != 6)
+        (if f == nExtra then .val (.int 0) else if f == 15 then .newList else .val .none)]) [])
   | ["la", c, x] => do pure (.mut [.listAppend (← nat? c) (← nat? x)] [])
   | ["li", c, i, x] => do pure (.mut [.listInsert (← nat? c) (← nat? i) (← nat? x)] [])
   | ["ld", c, i] => do pure (.mut [.listDel (← nat? c) (← nat? i)] [])
